@@ -589,3 +589,28 @@ Print Assumptions C11_plan_ordered.
 Example C11_segmenter_mux_total_example :
   forallb (mux_seg_small [(ex_e2e_tb, 1, [(1, 4); (5, 7)]); (ex_e2e_audio_tb, 2, [(1, 3); (4, 5)])]) (seq 0 2) = true.
 Proof. vm_compute. reflexivity. Qed.
+
+(* ---- the two views of a trak agree ----
+   The plan is computed by C11Model's stts/ctts queries on run lists (itrack_of), the fetch by C09Model's on the Go
+   structs; both transcribe the same Go functions.  On consistent tables they return the same results for every
+   argument the plan uses: decode time + duration of any sample number, composition offset of every sample,
+   the sample number at any uint64 time. *)
+From V.c11 Require Import C11BridgeProofs.
+Theorem C11_itrack_decode_time : forall tb, C09Spec.consistent tb = true -> forall n,
+  C11Model.get_decode_time (C11Model.t_stts (itrack_of (true, 1, tb))) n
+  = stts_get_decode_time (t_stts_count tb) (t_stts_delta tb) n.
+Proof. exact get_decode_time_bridge. Qed.
+Print Assumptions C11_itrack_decode_time.
+
+Theorem C11_itrack_cto : forall tb c, C09Spec.consistent tb = true -> C09Model.t_ctts tb = Some c ->
+  forall n, 1 <= n <= nsamples tb ->
+  C11Model.get_cto (combine (diffs (ct_end c)) (ct_off c)) n = ctts_get_cto c n.
+Proof. exact get_cto_bridge. Qed.
+Print Assumptions C11_itrack_cto.
+
+Theorem C11_itrack_sample_nr_at_time : forall tb, C09Spec.consistent tb = true ->
+  forall t, t < 18446744073709551616 ->
+  C11Model.get_sample_nr_at_time (C11Model.t_stts (itrack_of (true, 1, tb))) t
+  = stts_get_sample_nr_at_time (t_stts_count tb) (t_stts_delta tb) t.
+Proof. exact get_sample_nr_at_time_bridge. Qed.
+Print Assumptions C11_itrack_sample_nr_at_time.
